@@ -7,8 +7,10 @@ import (
 	"io"
 	"os"
 	"testing"
+	"time"
 
 	"github.com/vbauerster/mpb/v8"
+	"github.com/vbauerster/mpb/v8/decor"
 )
 
 // A BarSeq is one walk of the BarState.tla state graph: an initial total and the labels
@@ -28,7 +30,7 @@ type BarCall struct {
 
 type BarObs struct {
 	ID  int        `json:"id"`
-	Obs [][3]int64 `json:"obs"` // current, completed, aborted after each call
+	Obs [][4]int64 `json:"obs"` // current, completed, aborted after each call; the refill mark a render saw (-1: not observed)
 }
 
 func b2i(b bool) int64 {
@@ -41,10 +43,26 @@ func b2i(b bool) int64 {
 func runBarSeq(s *BarSeq) BarObs {
 	ctx, cancel := context.WithCancel(context.Background())
 	defer cancel()
-	p := mpb.NewWithContext(ctx, mpb.WithOutput(io.Discard))
-	bar := p.AddBar(s.Total)
+	// refreshes happen only on request: after a SetRefill on a live bar one frame is drawn and the
+	// Statistics handed to the filler show the mark (the getters do not expose it)
+	refresh := make(chan interface{})
+	seen := make(chan decor.Statistics, 16)
+	p := mpb.NewWithContext(ctx, mpb.WithOutput(io.Discard), mpb.WithManualRefresh(refresh))
+	bar, err := p.Add(s.Total, mpb.BarFillerFunc(func(w io.Writer, st decor.Statistics) error {
+		select {
+		case seen <- st:
+		default:
+		}
+		return nil
+	}))
+	if err != nil {
+		panic(err)
+	}
 	out := BarObs{ID: s.ID}
+	cancelled := false
 	for _, c := range s.Ops {
+		live := !cancelled && !bar.Completed() && !bar.Aborted()
+		refill := int64(-1)
 		switch c.Op {
 		case "incr":
 			bar.IncrInt64(c.A)
@@ -56,14 +74,29 @@ func runBarSeq(s *BarSeq) BarObs {
 			bar.EnableTriggerComplete()
 		case "refill":
 			bar.SetRefill(c.A)
+			if live {
+				for len(seen) > 0 {
+					<-seen
+				}
+				select {
+				case refresh <- time.Now():
+					select {
+					case st := <-seen:
+						refill = st.Refill
+					case <-time.After(2 * time.Second):
+					}
+				case <-time.After(2 * time.Second):
+				}
+			}
 		case "abort":
 			bar.Abort(c.F)
 		case "exit":
 			bar.Wait()
 		case "cancel":
 			cancel()
+			cancelled = true
 		}
-		out.Obs = append(out.Obs, [3]int64{bar.Current(), b2i(bar.Completed()), b2i(bar.Aborted())})
+		out.Obs = append(out.Obs, [4]int64{bar.Current(), b2i(bar.Completed()), b2i(bar.Aborted()), refill})
 	}
 	cancel()
 	p.Wait()
